@@ -111,6 +111,14 @@ Definition sk_rs_round (st : bool) (mode thr ph per d : Z) : option Z :=
   | _ => None
   end.
 
+(* hint/engine/outline.rs op_miap, the control-value cut-in decision of MIAP[1] (before rounding):
+     let delta = (distance.wrapping_sub(original_distance)).abs();       // F26Dot6::abs = wrapping_abs
+     if delta > gs.control_value_cutin { distance = original_distance; }
+   [c] = CVT value, [o] = projected current position, [k] = control_value_cutin *)
+Definition sk_miap_cutin (c o k : Z) : Z :=
+  let delta := wrap_s 32 (Z.abs (wrap_s 32 (c - o))) in
+  if k <? delta then o else c.
+
 (* glyf/mod.rs FreeTypeScaler: `F26Dot6::from_bits(v) * scale` (load_simple/load_empty/composite offsets),
    `Outlines::compute_scale`: F26Dot6::from_bits((ppem * 64.) as i32) / F26Dot6::from_bits(upem),
    phantom point rounding `point.x.round()` (F26Dot6::round) *)
@@ -244,6 +252,11 @@ Definition ft_round_super_45 (comp thr ph per d : Z) : Z :=
     let v := SUB_LONG v ph in
     if 0 <? v then - ph else v.
 
+(* ttinterp.c Ins_MIAP:  if ( FT_ABS( distance - org_dist ) > exc->GS.control_value_cutin ) distance = org_dist;
+   (FT_F26Dot6 = long: the subtraction is exact for i32 operands) *)
+Definition ft_miap_cutin (c o k : Z) : Z :=
+  if k <? Z.abs (c - o) then o else c.
+
 (* dispatch in the numbering of skrifa's RoundMode (ttinterp.c Compute_Round), compensation = 0 *)
 Definition ft_rs_round (mode thr ph per d : Z) : Z :=
   match mode with
@@ -289,6 +302,7 @@ Definition eval_sk (op : Z) (args : list Z) : option (list Z) :=
   | 19, [a; b] => Some [sk_compute_scale a b]
   | 20, [x] => Some [sk_f26dot6_round x]
   | 23, [x] => Some [fx_floor 16 x]
+  | 30, [c; o; k] => Some [sk_miap_cutin c o k]
   | _, _ => None
   end.
 
@@ -302,6 +316,7 @@ Definition eval_ft (op : Z) (args : list Z) : option (list Z) :=
   | 21, [x] => Some [ft_roundfix x]
   | 22, [x] => Some [ft_ceilfix x]
   | 23, [x] => Some [ft_floorfix x]
+  | 30, [c; o; k] => Some [ft_miap_cutin c o k]
   | _, _ => None
   end.
 
